@@ -717,6 +717,11 @@ class TGen:
         rng = self.rng
         a, b = self.new(), self.new()
         r = rng.random()
+        if r < 0.2:
+            # the name as a string constant and as a quoted symbol
+            o = self.new()
+            return (f"(do (setv {o} (Point 1 2)) (setattr {o} (hy.mangle \"{a}\") {self.E(D)}) "
+                    f"(L {self.k()} [(str '{a}) \"{a}\" '{b} :{b}]) (getattr {o} (hy.mangle \"{a}\")))")
         if r < 0.4:
             o = self.new()
             return (f"(do (setv {o} (Point 1 2)) (setv {o}.{a} {self.E(D)}) (setv (. {o} {b}) {self.lit()}) "
